@@ -543,3 +543,244 @@ theorem memberModule_edge (st : St) (m : Id) (n : Name) (x : Id) (h : memberModu
       · cases h
 
 end Risor.C11
+
+namespace Risor.C11
+
+/-! ## lookups after writes (option sequences, reused VMs) -/
+
+theorem tget_terase (t : Table) (m n : Name) :
+    tget (terase t m) n = if m = n then none else tget t n := by
+  induction t with
+  | nil => simp [terase, tget]
+  | cons kv t ih =>
+    obtain ⟨k, x⟩ := kv
+    have ih' : tget (List.filter (fun kv => kv.1 != m) t) n = if m = n then none else tget t n := ih
+    by_cases hk : k = m
+    · subst hk
+      by_cases hn : k = n
+      · subst hn
+        simpa [terase] using ih'
+      · simp [terase, tget, hn, ih']
+    · have hkm : (k != m) = true := by simpa using hk
+      by_cases hn : m = n
+      · subst hn
+        simp [terase, tget, hk, ih']
+      · by_cases hkn : k = n
+        · subst hkn
+          simp [terase, tget, hk, hn]
+        · simp [terase, tget, hk, hn, hkn, ih']
+
+theorem tget_treplace (t : Table) (m : Name) (v : Id) (n : Name) :
+    tget (treplace t m v) n =
+      if m = n then (if (tget t n).isSome then some v else none) else tget t n := by
+  induction t with
+  | nil => simp [treplace, tget]
+  | cons kv t ih =>
+    obtain ⟨k, x⟩ := kv
+    have ih' : tget (List.map (fun kv => if kv.1 = m then (kv.1, v) else kv) t) n =
+        if m = n then (if (tget t n).isSome then some v else none) else tget t n := ih
+    by_cases hk : k = m
+    · subst hk
+      by_cases hn : k = n
+      · simp [treplace, tget, hn]
+      · simp [treplace, tget, hn, ih']
+    · by_cases hn : m = n
+      · subst hn
+        simp [treplace, tget, hk, ih']
+      · by_cases hkn : k = n
+        · subst hkn
+          simp [treplace, tget, hk, hn]
+        · simp [treplace, tget, hk, hn, hkn, ih']
+
+theorem tget_append (a b : Table) (n : Name) :
+    tget (a ++ b) n = match tget a n with
+      | some x => some x
+      | none => tget b n := by
+  induction a with
+  | nil => simp [tget]
+  | cons kv a ih =>
+    obtain ⟨k, x⟩ := kv
+    by_cases hk : k = n
+    · simp [tget, hk]
+    · simp [tget, hk, ih]
+
+theorem tget_tput (t : Table) (m : Name) (v : Id) (n : Name) :
+    tget (tput t m v) n = if m = n then some v else tget t n := by
+  unfold tput
+  split
+  · rename_i h
+    rw [tget_treplace]
+    by_cases hn : m = n
+    · subst hn; simp [h]
+    · simp [hn]
+  · rename_i h
+    have hnone : tget t m = none := by
+      cases hg : tget t m with
+      | none => rfl
+      | some _ => simp [hg] at h
+    rw [tget_append]
+    by_cases hn : m = n
+    · subst hn; simp [hnone, tget]
+    · cases hg : tget t n <;> simp [tget, hn]
+
+theorem mem_tput' {t : Table} {n : Name} {v : Id} {kv : Name × Id} (h : kv ∈ tput t n v) :
+    kv ∈ t ∨ kv = (n, v) := by
+  unfold tput at h
+  split at h
+  · rcases mem_treplace h with h1 | h1
+    · exact Or.inr (Prod.ext h1.1 h1.2)
+    · exact Or.inl h1.1
+  · rcases List.mem_append.1 h with h1 | h1
+    · exact Or.inl h1
+    · exact Or.inr (by simpa using h1)
+
+theorem putAll_miss (g t0 : Table) (n : Name) (h : ∀ kv ∈ g, kv.1 ≠ n) :
+    tget (putAll t0 g) n = tget t0 n := by
+  induction g generalizing t0 with
+  | nil => rfl
+  | cons kv g ih =>
+    show tget (putAll (tput t0 kv.1 kv.2) g) n = _
+    rw [ih _ (fun kv' hm => h kv' (List.mem_cons_of_mem _ hm)), tget_tput]
+    simp [h kv List.mem_cons_self]
+
+theorem putAll_hit (g t0 : Table) (n : Name) (v : Id) (hv : ∀ kv ∈ g, kv.1 = n → kv.2 = v)
+    (h : tget t0 n = some v ∨ ∃ kv ∈ g, kv.1 = n) : tget (putAll t0 g) n = some v := by
+  induction g generalizing t0 with
+  | nil =>
+    rcases h with h | ⟨kv, hm, _⟩
+    · exact h
+    · cases hm
+  | cons kv g ih =>
+    show tget (putAll (tput t0 kv.1 kv.2) g) n = _
+    apply ih _ (fun kv' hm => hv kv' (List.mem_cons_of_mem _ hm))
+    by_cases hk : kv.1 = n
+    · left
+      rw [tget_tput, hv kv List.mem_cons_self hk]
+      simp [hk]
+    · rcases h with h | ⟨kv', hm, hk'⟩
+      · left; rw [tget_tput]; simp [hk, h]
+      · rcases List.mem_cons.1 hm with h1 | h1
+        · subst h1; exact absurd hk' hk
+        · exact Or.inr ⟨kv', h1, hk'⟩
+
+theorem mem_putAll (g t0 : Table) (kv : Name × Id) (h : kv ∈ putAll t0 g) : kv ∈ t0 ∨ kv ∈ g := by
+  induction g generalizing t0 with
+  | nil => exact Or.inl h
+  | cons kv0 g ih =>
+    have h' : kv ∈ putAll (tput t0 kv0.1 kv0.2) g := h
+    rcases ih _ h' with h1 | h1
+    · rcases mem_tput' h1 with h2 | h2
+      · exact Or.inl h2
+      · exact Or.inr (h2 ▸ List.mem_cons_self)
+    · exact Or.inr (List.mem_cons_of_mem _ h1)
+
+/-! ## names -/
+
+theorem splitDots_ne_nil (n : Name) : splitDots n ≠ [] := by
+  cases n with
+  | nil => simp [splitDots]
+  | cons c cs =>
+    unfold splitDots
+    split
+    · simp
+    · split <;> simp
+
+theorem splitDots_single (m n : Name) (h : splitDots m = [n]) : m = n := by
+  induction m generalizing n with
+  | nil => simp [splitDots] at h; exact h.symm
+  | cons c cs ih =>
+    unfold splitDots at h
+    split at h
+    · simp only [List.cons.injEq] at h
+      exact absurd h.2 (splitDots_ne_nil cs)
+    · split at h
+      · rename_i h0
+        exact absurd h0 (splitDots_ne_nil cs)
+      · rename_i hd tl h0
+        simp only [List.cons.injEq] at h
+        obtain ⟨h1, h2⟩ := h
+        subst h2
+        rw [ih hd h0, ← h1]
+
+/-! ## Config.init and the globals table -/
+
+theorem editMember_globals (resolve : St → Id → List Name → Option Id) (st : St) (mname : Name)
+    (attr : List Name) (v : Option Id) :
+    (editMember resolve st mname attr v).globals = st.globals := by
+  rcases editMember_cases resolve st mname attr v with h | ⟨_, _, last, tm, _, _, _, _, h⟩
+  · rw [h]
+  · rw [h]; exact (overrideMod_globals st tm last v).1
+
+theorem denyParts_globals (st : St) (p : List Name) (n : Name) :
+    tget (denyParts st p).globals n = if p = [n] then none else tget st.globals n := by
+  match p with
+  | [] => simp [denyParts, denyWith]
+  | [m] =>
+    show tget (terase st.globals m) n = _
+    rw [tget_terase]
+    by_cases h : m = n <;> simp [h]
+  | mname :: a :: r =>
+    show tget (editMember resolveImpl st mname (a :: r) none).globals n = _
+    rw [editMember_globals]
+    simp
+
+theorem overrideParts_globals (st : St) (p : List Name) (v : Id) (n : Name) :
+    tget (overrideParts st p v).globals n = if p = [n] then some v else tget st.globals n := by
+  match p with
+  | [] => simp [overrideParts, overrideWith]
+  | [m] =>
+    show tget (tput st.globals m v) n = _
+    rw [tget_tput]
+    by_cases h : m = n <;> simp [h]
+  | mname :: a :: r =>
+    show tget (editMember resolveImpl st mname (a :: r) (some v)).globals n = _
+    rw [editMember_globals]
+    simp
+
+theorem denies_globals (ds : List (List Name)) (st : St) (n : Name) :
+    tget (ds.foldl denyParts st).globals n = if [n] ∈ ds then none else tget st.globals n := by
+  induction ds generalizing st with
+  | nil => simp
+  | cons p ds ih =>
+    simp only [List.foldl_cons]
+    rw [ih, denyParts_globals]
+    by_cases h1 : [n] ∈ ds
+    · simp [h1]
+    · by_cases h2 : p = [n]
+      · simp [h2]
+      · have : ¬ [n] = p := fun h => h2 h.symm
+        simp [h1, h2, this]
+
+theorem overrides_globals_miss (os : List (List Name × Id)) (st : St) (n : Name)
+    (h : ∀ pv ∈ os, pv.1 ≠ [n]) :
+    tget (os.foldl (fun s pv => overrideParts s pv.1 pv.2) st).globals n = tget st.globals n := by
+  induction os generalizing st with
+  | nil => rfl
+  | cons pv os ih =>
+    simp only [List.foldl_cons]
+    rw [ih _ (fun pv' hm => h pv' (List.mem_cons_of_mem _ hm)), overrideParts_globals]
+    simp [h pv List.mem_cons_self]
+
+theorem overrides_globals_hit (os : List (List Name × Id)) (st : St) (n : Name) (v : Id)
+    (hv : ∀ pv ∈ os, pv.1 = [n] → pv.2 = v)
+    (h : tget st.globals n = some v ∨ ∃ pv ∈ os, pv.1 = [n]) :
+    tget (os.foldl (fun s pv => overrideParts s pv.1 pv.2) st).globals n = some v := by
+  induction os generalizing st with
+  | nil =>
+    rcases h with h | ⟨pv, hm, _⟩
+    · exact h
+    · cases hm
+  | cons pv os ih =>
+    simp only [List.foldl_cons]
+    apply ih _ (fun pv' hm => hv pv' (List.mem_cons_of_mem _ hm))
+    by_cases hk : pv.1 = [n]
+    · left
+      rw [overrideParts_globals, hv pv List.mem_cons_self hk]
+      simp [hk]
+    · rcases h with h | ⟨pv', hm, hk'⟩
+      · left; rw [overrideParts_globals]; simp [hk, h]
+      · rcases List.mem_cons.1 hm with h1 | h1
+        · subst h1; exact absurd hk' hk
+        · exact Or.inr ⟨pv', h1, hk'⟩
+
+end Risor.C11
